@@ -367,3 +367,113 @@
         core::mem::forget(r);
         core::mem::forget(res);
     }
+
+    // ---------------------------------------------------------------- C20 / C23: read, take
+    fn any_sample_state() -> SampleStateKind { if kani::any() { SampleStateKind::Read } else { SampleStateKind::NotRead } }
+    fn any_view_state() -> ViewStateKind { if kani::any() { ViewStateKind::New } else { ViewStateKind::NotNew } }
+    fn any_instance_state() -> InstanceStateKind {
+        let c: u8 = kani::any();
+        match c % 3 { 0 => InstanceStateKind::Alive, 1 => InstanceStateKind::NotAliveDisposed, _ => InstanceStateKind::NotAliveNoWriters }
+    }
+
+    /// C20, one stored sample, read (take: twin obligation).  A reader holding ONE sample (arbitrary sample state, arbitrary generation counters stamped at
+    /// reception) of an instance in an ARBITRARY state (view state, instance state, generation counters >= the sample's);
+    /// read with EVERY sample/view/instance-state mask (two arbitrary members each), max_samples in
+    /// {0, 1, 5}, and no instance / the instance / an unknown instance as the requested handle.  Then: unknown handle =>
+    /// BadParameter; otherwise the sample is returned iff its sample state, its instance's view state and instance state are
+    /// all in the masks and max_samples > 0, else NoData and nothing changes; the returned SampleInfo carries the states
+    /// as they were BEFORE the call, the sample's own generation counters, ranks per the DDS definitions (sample_rank 0,
+    /// generation_rank 0, absolute_generation_rank = instance generation - sample generation), handle, valid_data and the
+    /// payload bytes; read keeps the sample and marks it READ, take removes it; the instance becomes NOT_NEW.
+    /// @props C20
+    /// @kind bounded
+    /// @tier quick
+    /// @timeout 1500
+    /// @bounds 1 stored sample, 1 known instance, masks of 2 members, generation counters 0..=3
+    /// @fn DataReaderEntity::read, DataReaderEntity::take, DataReaderEntity::create_sample_collection
+    #[cfg_attr(kani, kani::proof)]
+    #[cfg_attr(kani, kani::stub(alloc::fmt::format, verif_support::fmt_format_stub))]
+    fn c20_read_single_sample_masks_and_info() {
+        check_c20(false);
+    }
+
+    /// C20, one stored sample, take: same obligation as for read; the returned sample is removed.
+    /// @props C20
+    /// @kind bounded
+    /// @tier thorough
+    /// @timeout 2400
+    /// @bounds 1 stored sample, 1 known instance, masks of 2 members, generation counters 0..=3
+    /// @fn DataReaderEntity::take, DataReaderEntity::create_sample_collection
+    #[cfg_attr(kani, kani::proof)]
+    #[cfg_attr(kani, kani::stub(alloc::fmt::format, verif_support::fmt_format_stub))]
+    fn c20_take_single_sample_masks_and_info() {
+        check_c20(true);
+    }
+
+    fn check_c20(take: bool) {
+        let mut qos = DataReaderQos::const_default();
+        qos.history = HistoryQosPolicy { kind: HistoryQosPolicyKind::KeepAll };
+        let mut r: DataReaderEntity<()> = DataReaderEntity::new(ih(99), qos, String::new(), ());
+        r.enabled = true;
+        let vs = any_view_state();
+        let is = any_instance_state();
+        let sd: u8 = kani::any();
+        let sn: u8 = kani::any();
+        let id: u8 = kani::any();
+        let inw: u8 = kani::any();
+        kani::assume(sd <= id && sn <= inw && id <= 3 && inw <= 3);
+        r.instances.push(InstanceState {
+            handle: ih(1), view_state: vs, instance_state: is,
+            most_recent_disposed_generation_count: id as i32, most_recent_no_writers_generation_count: inw as i32,
+            last_received_time_stamp: Time::new(5, 0),
+        });
+        let ss = any_sample_state();
+        let mut s = stored(10, ih(1), Time::new(3, 0), ChangeKind::Alive);
+        s.sample_state = ss;
+        s.disposed_generation_count = sd as i32;
+        s.no_writers_generation_count = sn as i32;
+        r.sample_list.push(s);
+        let m_ss = [any_sample_state(), any_sample_state()];
+        let m_vs = [any_view_state(), any_view_state()];
+        let m_is = [any_instance_state(), any_instance_state()];
+        let ms: u8 = kani::any();
+        kani::assume(ms <= 2);
+        let max_samples: i32 = if ms == 0 { 0 } else if ms == 1 { 1 } else { 5 };
+        let hsel: u8 = kani::any();
+        kani::assume(hsel <= 2);
+        let handle = if hsel == 0 { None } else if hsel == 1 { Some(ih(1)) } else { Some(ih(2)) };
+        let res = if take { r.take(max_samples, &m_ss, &m_vs, &m_is, &handle) } else { r.read(max_samples, &m_ss, &m_vs, &m_is, &handle) };
+        let matches = (m_ss[0] == ss || m_ss[1] == ss) && (m_vs[0] == vs || m_vs[1] == vs) && (m_is[0] == is || m_is[1] == is) && max_samples > 0;
+        if hsel == 2 {
+            assert!(matches!(&res, Err(DdsError::BadParameter)), "C20: an unknown instance handle is BadParameter");
+        } else if !matches {
+            assert!(matches!(&res, Err(DdsError::NoData)), "C20: NoData exactly when nothing matches the masks");
+            assert!(r.sample_list.len() == 1 && r.sample_list[0].sample_state == ss && r.instances[0].view_state == vs, "C20: nothing changes when nothing is returned");
+        } else {
+            match &res {
+                Ok(l) => {
+                    assert!(l.len() == 1, "C20: the matching sample is returned");
+                    let (data, info) = &l[0];
+                    assert!(data.len() == 1 && data[0] == 10, "C20: with its payload");
+                    assert!(info.sample_state == ss && info.view_state == vs && info.instance_state == is, "C20: SampleInfo carries the states as they were before the call");
+                    assert!(info.disposed_generation_count == sd as i32 && info.no_writers_generation_count == sn as i32, "C20: generation counts are the ones stamped on the sample at reception");
+                    assert!(info.sample_rank == 0 && info.generation_rank == 0, "C20: a single returned sample has sample_rank 0 and generation_rank 0");
+                    assert!(info.absolute_generation_rank == (id as i32 + inw as i32) - (sd as i32 + sn as i32),
+                        "C20: absolute_generation_rank = (instance disposed+no_writers generation) - (the sample's), DDS 1.4 2.2.2.5.1.9");
+                    assert!(info.instance_handle == ih(1) && info.valid_data && info.source_timestamp == Some(Time::new(3, 0)));
+                }
+                Err(_) => assert!(false, "C20: a matching sample is returned"),
+            }
+            if take {
+                assert!(r.sample_list.len() == 0, "C20: take removes the returned sample");
+            } else {
+                assert!(r.sample_list.len() == 1 && r.sample_list[0].sample_state == SampleStateKind::Read, "C20: read keeps the sample and marks it READ");
+            }
+            assert!(r.instances[0].view_state == ViewStateKind::NotNew, "C20: an accessed instance is no longer NEW");
+        }
+        kani::cover!(hsel != 2 && matches);
+        kani::cover!(hsel != 2 && !matches && max_samples > 0);
+        kani::cover!(sd + sn > 0 && matches);
+        core::mem::forget(r);
+        core::mem::forget(res);
+    }
